@@ -10,14 +10,18 @@ from harness import gen
 from harness.common import ImplRaised, drv, guarded, impl, run_check
 
 PID = "C03"
+# slice normalisation is shared with C14: Model/Selectors.processKey, theorems Cooler.C14.processSlice_spec / processScalar_spec
 THEOREMS = ["direct_correct", "direct_eq_spec", "direct_chunk_independent", "fillLower_mem", "fillLower_nodup",
-            "fillLower_correct", "fill_chunk_independent", "tasks_cases", "fillLower_total", "rowSpans_valid"]
-LEVELS = {"windows": "top", "csr_reader": "unit", "get_spans": "unit", "store_forms": "top"}
+            "fillLower_correct", "fill_chunk_independent", "tasks_cases", "fillLower_total", "rowSpans_valid",
+            "dense_of_perm", "dense_correct_symm", "dense_correct_square", "sparse_dense_agree"]
+LEVELS = {"windows": "top", "csr_reader": "unit", "get_spans": "unit", "store_forms": "top", "spellings": "top"}
 DESCRIBE = {
     "windows": "Cooler.matrix(balance=False, sparse|as_pixels, chunksize)[i0:i1, j0:j1] for EVERY window of [0,n]^4 vs Lean "
                "`specWindow`/`specDense` (L0; = `queryFill`/`queryDirect` by theorems fillLower_correct / direct_correct)",
     "csr_reader": "CSRReader.__call__(field, bbox, row_span, reflect) on dict-backed columns vs Lean `csrRead`",
     "get_spans": "contract `validSpans` evaluated by Lean on the real CSRReader.get_spans(bbox, chunksize) output",
+    "spellings": "matrix[rowkey, colkey] for ALL in-domain slice spellings (bounds in [-n,n] or None) and scalars (k in [-n,n)) on both axes vs "
+                 "Lean `processKey` (Model/Selectors, theorems C14.processSlice_spec/processScalar_spec) composed with `specDense`",
     "store_forms": "cooler.api.matrix on an open h5py handle / Cooler given as URI and as handle vs Lean `specDense`",
 }
 RULE = ("one case = one stored matrix (n bins over 1-3 chromosomes; kinds: empty, full, diagonal only, no diagonal, single row, "
@@ -158,7 +162,53 @@ def _get_spans(case):
     return None
 
 
-CHECKS = {"windows": _windows, "csr_reader": _csr_reader, "get_spans": _get_spans, "store_forms": _store_forms}
+def _spellings(case):
+    n, pixels, symm = case["n"], case["pixels"], case["symm"]
+    path = os.path.join(gen.tmpdir(), f"c03s-{os.getpid()}.cool")
+    gen.write_cooler(path, gen.layout_bins([n]), pixels, symm=symm)
+    try:
+        vals = [None] + list(range(-n, n + 1))
+        keys = [{"slice": [a, b]} for a in vals for b in vals] + [{"scalar": k} for k in range(-n, n)]
+        pk = drv().ask("C14.process", n=n, keys=keys)
+        dom = []
+        for k, a in zip(keys, pk):
+            if a["in_domain"] and "ok" in a["model"] and a["model"]["ok"][0] <= a["model"]["ok"][1]:
+                if "slice" in k:
+                    assert a["indices"] == a["model"]["ok"], "theorem processSlice_spec contradicted"
+                dom.append((k, a["model"]["ok"]))
+        clr = cooler.Cooler(path)
+        m = clr.matrix(balance=False)
+        col_keys = dom if n <= 2 else dom[:: max(1, len(dom) // 9)]
+        boxes = [[r[1][0], r[1][1], c[1][0], c[1][1]] for r in dom for c in col_keys]
+        ans = drv().ask("C03.windows", pixels=pixels, n=n, symm=symm, boxes=boxes)
+        t = 0
+        for (rk, rr) in dom:
+            for (ck, cc) in col_keys:
+                a = ans[t]; t += 1
+                pr = slice(*rk["slice"]) if "slice" in rk else rk["scalar"]
+                pc = slice(*ck["slice"]) if "slice" in ck else ck["scalar"]
+                got = np.asarray(impl(lambda: m[pr, pc]))
+                want = a["dense"] if rr[1] > rr[0] else []
+                if got.shape != (rr[1] - rr[0], cc[1] - cc[0]) or (got.size and got.tolist() != want):
+                    return {"mismatch": True, "row_key": rk, "col_key": ck, "window": [rr, cc], "impl_shape": list(got.shape),
+                            "impl": got.tolist(), "model": want}
+        # single-axis subscript: matrix[rowkey] means all columns
+        for (rk, rr) in dom[:: max(1, len(dom) // 12)]:
+            pr = slice(*rk["slice"]) if "slice" in rk else rk["scalar"]
+            got = np.asarray(impl(lambda: m[pr]))
+            a = drv().ask("C03.windows", pixels=pixels, n=n, symm=symm, boxes=[[rr[0], rr[1], 0, n]])[0]
+            if got.shape != (rr[1] - rr[0], n) or (got.size and got.tolist() != a["dense"]):
+                return {"mismatch": True, "row_key": rk, "col_key": "absent", "impl": got.tolist(), "model": a["dense"]}
+        # out-of-range scalar must raise IndexError
+        r = guarded(lambda: m[n, 0])
+        if r[0] != "err":
+            return {"mismatch": True, "row_key": {"scalar": n}, "impl": "no error", "model": "IndexError"}
+        return {"stats": {"spellings": len(dom) * len(col_keys)}}
+    finally:
+        os.unlink(path)
+
+
+CHECKS = {"spellings": _spellings, "windows": _windows, "csr_reader": _csr_reader, "get_spans": _get_spans, "store_forms": _store_forms}
 
 
 def nontrivial(name, case):
@@ -217,6 +267,9 @@ def cases(tier, rng):
         n = rng.randint(1, 6)
         px = gen.matrix_kinds(rng, n, rng.random() < 0.7)
         yield "get_spans", {"n": n, "pixels": px, "chunks": [1, 2, 3, 5, len(px) + 1, 10 ** 7]}
+    for n in ((1, 2, 3, 4) if thorough else (1, 2, 3)):
+        for symm in (True, False):
+            yield "spellings", {"n": n, "symm": symm, "pixels": gen.matrix_kinds(rng, n, symm, "dense-random")}
     for _ in range(40 if thorough else 8):
         n = rng.randint(2, 6)
         symm = rng.random() < 0.6
